@@ -42,7 +42,7 @@ ASSUMPTIONS = [
     "shared-object history, buffer reuse and scratch-state faults",
     "numba, numpy are trusted",
 ]
-FAULT_KINDS = ["scribble_temp:extreme", "scribble_temp:random",
+FAULT_KINDS = ["same_name_other_instance", "scribble_temp:extreme", "scribble_temp:random",
                "buffer_overwritten_in_place", "rows_shuffled"]
 PROBES = ["dominance_pair_checked", "sparse_last_bin", "same_pair_again",
           "packing_not_decoder_reachable", "value_equals_lower_bound",
@@ -67,7 +67,7 @@ def warmup() -> None:
         execute(doc)
 
 
-def generate(rng: random.Random, batch: dict) -> dict:
+def generate(rng: random.Random, batch: dict, depth: int = 0) -> dict:
     inst = packgen.gen_instance(rng, big=batch.get("big", False),
                                 shipped_p=0.08)
     items = packgen.resolve_items(inst)
@@ -98,8 +98,13 @@ def generate(rng: random.Random, batch: dict) -> dict:
         else:
             ops.append({"op": "evaluate", "obj": rng.choice(NAMES),
                         "pack": rng.randrange(len(packs))})
-    return {"inst": inst, "packs": packs, "buffers": rng.choice([1, 1, 2]),
-            "ops": ops}
+    doc = {"inst": inst, "packs": packs, "buffers": rng.choice([1, 1, 2]),
+           "ops": ops}
+    if depth == 0 and "resource" not in inst and rng.random() < 0.25:
+        twin = generate(rng, batch, depth=1)
+        if "resource" not in twin["inst"]:
+            doc["twin"] = twin
+    return doc
 
 
 def directed(tier: str) -> list:
@@ -128,6 +133,29 @@ def directed(tier: str) -> list:
 
 
 def execute(doc: dict) -> dict:
+    """A scenario may carry a twin: a second, different instance with the SAME
+    name whose objectives are created and used after the first ones (state keyed
+    by the instance name must not leak between them)."""
+    res = _execute_one(doc, packgen.scenario_name(doc))
+    twin = doc.get("twin")
+    if twin is not None and res["violation"] is None:
+        r2 = _execute_one(twin, packgen.scenario_name(doc))
+        res["events"].append(["twin"])
+        res["events"].extend(r2["events"])
+        for key in ("faults", "probes"):
+            for k, v in r2[key].items():
+                res[key][k] = res[key].get(k, 0) + v
+        res["states"].extend(r2["states"])
+        res["ops"] += r2["ops"]
+        res["sim_time"] += r2["sim_time"]
+        core.bump(res["faults"], "same_name_other_instance")
+        if r2["violation"] is not None:
+            res["violation"] = r2["violation"]
+            res["violation"]["in_twin"] = True
+    return res
+
+
+def _execute_one(doc: dict, name: str) -> dict:
     import importlib
 
     import numpy as np
@@ -135,7 +163,7 @@ def execute(doc: dict) -> dict:
     from simkit.engines.c12_jobs import BP_OBJECTIVES
 
     res = core.new_result()
-    inst = packgen.build_instance(doc["inst"])
+    inst = packgen.build_instance(doc["inst"], name)
     W, H = int(inst.bin_width), int(inst.bin_height)
     items = [[int(v) for v in row] for row in inst]
     n_items = int(inst.n_items)
@@ -275,6 +303,10 @@ def execute(doc: dict) -> dict:
 
 
 def reductions(doc: dict):
+    if doc.get("twin") is not None:
+        yield {k: v for k, v in doc.items() if k != "twin"}
+        for cand in reductions(doc["twin"]):
+            yield {**doc, "twin": cand}
     for cand in core.list_deletions(doc["ops"], 1):
         if any(o["op"] == "evaluate" for o in cand):
             yield {**doc, "ops": cand}
